@@ -22,6 +22,7 @@ fn main() {
             let secs: u64 = args.get(2).and_then(|s| s.parse().ok()).unwrap_or(20);
             let prog = Progress::start(secs);
             let stdin = std::io::stdin();
+            let mut hid: u64 = args.get(3).and_then(|s| s.parse().ok()).unwrap_or(0);
             for line in stdin.lock().lines() {
                 let line = line.unwrap();
                 prog.tick();
@@ -33,12 +34,21 @@ fn main() {
                     Err(_) => continue,
                 };
                 // write-ahead marker on stderr so that an abort is attributable
-                let o = exec::run_line(&v);
+                // every scenario's output (one line, or several for a history) ends with a "#" line
+                hid += 1;
+                let lines: Vec<String> = if v["do"].as_str() == Some("hist") {
+                    hist::run_history(&v, hid)
+                } else {
+                    match exec::run_line(&v) {
+                        Some(o) => vec![o],
+                        None => vec!["{\"k\":\"skip\"}".to_string()],
+                    }
+                };
                 let mut o2 = out.lock();
-                match o {
-                    Some(o) => writeln!(o2, "{}", o).unwrap(),
-                    None => writeln!(o2, "{{\"k\":\"skip\"}}").unwrap(),
+                for l in lines {
+                    writeln!(o2, "{}", l).unwrap();
                 }
+                writeln!(o2, "#").unwrap();
                 o2.flush().unwrap();
             }
         }
